@@ -1,10 +1,11 @@
 #![no_main]
-//! C17: the whole stream drives the property (programs, texts, arbitrary strings)
+//! C17: the input is a source text (mode 4 of the check: parse; if accepted with the single root
+//! main: render, parse again, compare), Core jets
 use libfuzzer_sys::fuzz_target;
 
 #[global_allocator]
 static ALLOC: vharness::engine::meter::Meter = vharness::engine::meter::Meter;
 
 fuzz_target!(|data: &[u8]| {
-    vharness::engine::fuzz::run_case(&vharness::props::c17::SPEC, &[], data);
+    vharness::engine::fuzz::run_case(&vharness::props::c17::SPEC, &[255, 0, 0], data);
 });
